@@ -61,8 +61,22 @@ def build(model, ranks=None, plain=False, default_resource_ids=False, share_id_o
         if not plain and tj["id"] in ranks:
             t._rank = ranks[tj["id"]]
         tasks.append(t)
+    # the workflow may exist (with some of its tasks registered) before the tasks are linked
+    workflow = Workflow()
+    listed = [tasks[i] for i in model["order"]] if model.get("order") else list(tasks)
+    late = set(model.get("late_register") or [])
+    if late and not model.get("assign_list"):
+        workflow.extend_child_task_list([tasks[i] for i in (model.get("order") or range(len(tasks))) if i not in late])
     for (pi, si, kind) in model.get("deps", []):
-        tasks[si].append_input_task(tasks[pi], task_dependency_mode=TD(kind))
+        # dependency kinds as enum members, or as the plain integers the saved format holds
+        tasks[si].append_input_task(tasks[pi], task_dependency_mode=(int(kind) if model.get("int_kinds") else TD(kind)))
+    ext = []
+    for n_, (si, kind, state) in enumerate(model.get("ext_preds", [])):
+        # a predecessor that is not an element of this workflow (e.g. a task of another project); nobody updates it
+        x = Task(name="x%d" % n_, ID="x%d" % n_, default_work_amount=1.0)
+        x.state = M.bt.BaseTaskState(state)
+        tasks[si].append_input_task(x, task_dependency_mode=TD(kind))
+        ext.append(x)
 
     comps = []
     for cj in model.get("comps", []):
@@ -134,7 +148,8 @@ def build(model, ranks=None, plain=False, default_resource_ids=False, share_id_o
                 )
             )
         wp = M.bwp.BaseWorkplace(
-            name=pj.get("name", pj["id"]), ID=pj["id"], facility_list=facs, max_space_size=pj.get("cap", 1.0)
+            name=pj.get("name", pj["id"]), ID=pj["id"], facility_list=facs, max_space_size=pj.get("cap", 1.0),
+            **({"input_workplace_list": [wps[k] for k in pj["inputs"]]} if model.get("wp_ctor_inputs") and pj.get("inputs") else {})
         )
         wps.append(wp)
     for i_, mj in enumerate(model.get("teams", [])):
@@ -160,7 +175,7 @@ def build(model, ranks=None, plain=False, default_resource_ids=False, share_id_o
                 if w_.main_workplace_id in byid:
                     w_.main_workplace_id = byid[w_.main_workplace_id]
     for i, pj in enumerate(model.get("wps", [])):
-        if pj.get("inputs"):
+        if pj.get("inputs") and not model.get("wp_ctor_inputs"):
             wps[i].extend_input_workplace_list([wps[k] for k in pj["inputs"]])
 
     project = M.bp.BaseProject(
@@ -170,15 +185,17 @@ def build(model, ranks=None, plain=False, default_resource_ids=False, share_id_o
         unit_timedelta=datetime.timedelta(seconds=model.get("unit_s", 60)),
         product=Product(comps),
         organization=Organization(team_list=teams, workplace_list=wps),
-        workflow=Workflow(),
+        workflow=workflow,
     )
     # workflow.task_list order: the spec order (a topological order) unless the model asks for another one
-    listed = [tasks[i] for i in model["order"]] if model.get("order") else list(tasks)
     if model.get("assign_list"):
         project.workflow.task_list = listed  # the idiom of the library's own tests: parent_workflow is set lazily by initialize()
+    elif late:
+        project.workflow.extend_child_task_list([t for t in listed if not any(t is x for x in project.workflow.task_list)])
     else:
         project.workflow.extend_child_task_list(listed)
     b = Built()
+    b.ext = ext
     b.project, b.tasks, b.comps, b.teams, b.wps = project, tasks, comps, teams, wps
     b.workers = [w for tm in teams for w in tm.worker_list]
     b.facs = [f for wp in wps for f in wp.facility_list]
